@@ -5,6 +5,7 @@ import math
 import numpy as np
 
 from ..common import Ctx, b2f, close, driver_batch, f2b, fvec
+from . import c03_ext
 
 LEVEL = "proof"
 LEVEL_TEXT = (
@@ -16,7 +17,16 @@ LEVEL_TEXT = (
     "g'''=(3 d2^2-d1 d3)/d1^5 instantiated for BaseTransform.deriv*_inverse and InverseRTransform.deriv*; _convert_inf on "
     "any carrier with infinity tests. Where the constructor admits parameters for which a clause is false the extra "
     "hypothesis is explicit (R>0, b>0, ExpRTransform rmin>0, LinearFinite rmin<rmax, HandyMod 2^m-1<rmax-rmin). "
-    "Tie to the code: translator + correspondence of every generated definition at Float with the method it came from."
+    "Tie to the code: translator + correspondence of every generated definition at Float with the method it came from. "
+    "Round 2: the static helper BeckeRTransform.find_parameter is translated (Python indexing, // and %) and proved to return "
+    "(radius-rmin)(1-mid)/(1+mid) at the middle value of the array, to raise ValueError iff rmin > radius and IndexError iff the "
+    "array is empty, to make the Becke map send the middle value to radius and (ascending array) half of the points within "
+    "radius; trimming: for every one of the 11 call sites of _convert_inf and every carrier (Float included) the trimmed method "
+    "returns the untrimmed value itself unless it is +-inf (any magnitude), and +-1e16 otherwise; on XReal (exact reals extended "
+    "by IEEE +-inf/nan) finite values of every magnitude pass _convert_inf, both branches agree, and the forward map AT the "
+    "singular end is inf, trimmed to 1e16 (Becke, MultiExp, Knowles, Handy; Becke also deriv); InverseRTransform(T) is a "
+    "transform for each of the 11 classes (generated domain/codomain swap, derivative package, round trip, no "
+    "ZeroDivisionError, sign of the Jacobian, image inside the codomain); Jacobian limits at the singular end (Becke, MultiExp)."
 )
 TECHNIQUE = ("Lean 4 / Mathlib proof (HasDerivAt combinators, inverse-function theorem, mean-value monotonicity) over "
              "definitions translated from the Python AST + differential run of the generated definitions + mpmath oracle "
@@ -27,7 +37,9 @@ CLASSES = ["BeckeRTransform", "LinearFiniteRTransform", "IdentityRTransform", "L
            "ExpRTransform", "PowerRTransform", "HyperbolicRTransform", "MultiExpRTransform", "KnowlesRTransform",
            "HandyRTransform", "HandyModRTransform"]
 LEAN_MODULES = [f"GridVerif.Props.C03.{c}" for c in CLASSES] + [
-    "GridVerif.Props.C03.InverseRTransform", "GridVerif.Props.C03.ConvertInf"]
+    "GridVerif.Props.C03.InverseRTransform", "GridVerif.Props.C03.ConvertInf",
+    "GridVerif.Props.C03.FindParameter", "GridVerif.Props.C03.Trimming", "GridVerif.Props.C03.Composition",
+    "GridVerif.Props.C03.DerivEnds"]
 
 _COMMON = ["hasDerivAt_transform", "hasDerivAt_deriv", "hasDerivAt_deriv2", "inverse_transform", "transform_inverse",
            "localInverseAt", "inverse_derivs"]
@@ -57,7 +69,19 @@ THEOREMS = [f"GridVerif.C03.{c}.{t}" for c in CLASSES for t in _COMMON + _EXTRA[
     ["convert_inf_finite", "convert_inf_posInf", "convert_inf_negInf", "convert_inf_scalar_spec", "convert_inf_default",
      "convert_inf_real", "convert_inf_spec"]] + [
     "GridVerif.C03.deriv_inverse_package", "GridVerif.C03.inverse_hasDerivAt₁", "GridVerif.C03.inverse_hasDerivAt₂",
-    "GridVerif.C03.inverse_hasDerivAt₃"]
+    "GridVerif.C03.inverse_hasDerivAt₃"] + [
+    # round 2: the static helper find_parameter (generated definition)
+    f"GridVerif.C03.FindParameter.{t}" for t in
+    ["find_parameter_eq", "find_parameter_raises_iff", "find_parameter_isSome_iff", "find_parameter_maps_mid_to_radius",
+     "find_parameter_pos", "midValue_splits", "find_parameter_half_within"]] + [
+    # round 2: trimming — every call site of _convert_inf, every carrier; XReal (exact reals + IEEE inf/nan)
+    f"GridVerif.C03.Trim.{t}" for t in
+    ["becke_transform_of_not_inf", "becke_transform_of_posInf", "becke_transform_of_negInf", "becke_deriv_of_not_inf", "becke_deriv_of_posInf", "becke_deriv_of_negInf", "multiExp_transform_of_not_inf", "multiExp_transform_of_posInf", "multiExp_transform_of_negInf", "knowles_transform_of_not_inf", "knowles_transform_of_posInf", "knowles_transform_of_negInf", "knowles_deriv_of_not_inf", "knowles_deriv_of_posInf", "knowles_deriv_of_negInf", "handy_transform_of_not_inf", "handy_transform_of_posInf", "handy_transform_of_negInf", "handy_deriv_of_not_inf", "handy_deriv_of_posInf", "handy_deriv_of_negInf", "handy_deriv2_of_not_inf", "handy_deriv2_of_posInf", "handy_deriv2_of_negInf", "handy_deriv3_of_not_inf", "handy_deriv3_of_posInf", "handy_deriv3_of_negInf", "handyMod_transform_of_not_inf", "handyMod_transform_of_posInf", "handyMod_transform_of_negInf", "handyMod_deriv_of_not_inf", "handyMod_deriv_of_posInf", "handyMod_deriv_of_negInf"] + ["convert_inf_fin", "convert_inf_scalar_fin", "convert_inf_special", "convert_inf_default_special", "convert_inf_scalar_eq_array", "convert_inf_does_not_cap", "becke_transform_fin", "becke_deriv_fin", "becke_transform_domain_hi", "becke_deriv_domain_hi", "multiExp_transform_domain_lo", "knowles_transform_domain_hi", "handy_transform_domain_hi"]] + [
+    # round 2: InverseRTransform(T) is a transform, for every class (domain/codomain swap, derivative package, sign, image)
+    f"GridVerif.C03.Composition.{t}" for t in
+    ["domain_swap", "ofLocalInverse", "becke", "linearFinite", "identity", "linearInfinite", "exp", "power", "hyperbolic", "multiExp",
+     "knowles", "handy", "handyMod", "linearInfinite_inverse_pos", "exp_inverse_pos", "power_inverse_pos"]] + [
+    "GridVerif.C03.DerivEnds.becke_tendsto_deriv_domain_hi", "GridVerif.C03.DerivEnds.multiExp_tendsto_deriv_domain_lo"]
 
 RULE = (
     "correspondence: every generated definition (11 classes x transform/inverse/deriv/deriv2/deriv3/deriv_inverse/"
@@ -67,7 +91,20 @@ RULE = (
     "of 1-4 interior points plus the reference end points, Python-float / np.float64 / array arguments; one evaluation = one "
     "(class, method, parameters, point); non-trivial = exponent non-integer or >= 3, or trim branch taken (result +-1e16), "
     "or an end point, or an inferred b, or a raise, or (classes without exponent) an array of >= 2 interior points with "
-    "random parameters"
+    "random parameters; round 2: BeckeRTransform.find_parameter on arrays of 0..41 points (ascending, unsorted, repeated, with "
+    "+-1, float32/int/read-only/strided, scalar arguments int/float32, rejected rmin > radius, each call twice), the declared "
+    "domain/codomain of every class and of its InverseRTransform, and every method that calls _convert_inf at parameters "
+    "R, rmax up to 1e250 and points 1e-3 .. 1 ulp from the singular end and on it (finite values above 1e16 with trimming on, "
+    "+-inf, +-1e16 all occur in every run; a run where they do not is a failure), _convert_inf on magnitudes 5e-324 .. 1.8e308; "
+    "round 2, generators: replayable call scripts (python source) = (i) every argument kind (float64/int64/int32/bool/float32 arrays, "
+    "2-D, 0-d, non-contiguous, reversed view, read-only, repeated values, Python float/int, np.float64/np.float32/np.int64 scalars) x "
+    "every method on objects whose parameters are Python ints / np.int64 / np.int32 / np.float64 / np.float32 / floats, positional / "
+    "keyword / default trim_inf, plain and wrapped in InverseRTransform; (ii) extreme parameters (rmin = 0, R up to 1e6, exponents in "
+    "[0.5, 8], Power exponent up to ~1e4) with points next to both ends (1-1e-4 .. nextafter(1,0), -1+1e-12 ..) and their images; "
+    "(iii) state: two objects sharing leading parameters, same array twice, same size other values, in-place edit of the same array "
+    "object, temporaries, rebuilt objects, scalars in between, b explicit and inferred from the first array; every element compared with "
+    "the stateless generated model (rtol 1e-10; single-precision computations 2e-3; ill-conditioned points judged against the 40-digit "
+    "run); all counted non-trivial"
 )
 TRUSTED_BASE = [
     "Lean 4.33 kernel; Mathlib; axioms propext, Classical.choice, Quot.sound only (audited per theorem)",
@@ -76,11 +113,17 @@ TRUSTED_BASE = [
     "statements in Props/C03/*.lean and their reading of the property (interior = open interval between the generated domain ends; "
     "HyperbolicRTransform on its domain of use (0, 1/b); b-scaled maps: reference points 0 and b)",
     "Lean compiler/runtime for the Float instance (driver), libm pow/log/exp vs numpy's (tolerance 1e-10 relative)",
+    "XReal (Lemmas/XReal.lean): the reading of IEEE-754 special values over exact reals (x/0 = +-inf, 0/0 = inf-inf = 0*inf = nan, "
+    "comparisons with nan false, log 0 = -inf, one unsigned zero dividing like +0); finite arithmetic is exact (no rounding, no overflow)",
+    "pyIndex / Int.fdiv / Int.fmod (Model/RTransform.lean, Lean core) as the meaning of Python's a[i], //, % in find_parameter; tied by correspondence",
 ]
 ASSUMPTIONS = [
     "IEEE rounding is not modelled: equalities are over ℝ, the correspondence uses rtol 1e-10 (conditioning-limited points near the ends excluded)",
     "the state machine of the inferred scale b (set once from the first array) belongs to C19; here b is a parameter once set",
     "array semantics of numpy (element-wise arithmetic, np.any over elements) as modelled element-wise",
+    "single-precision inputs (float32 arrays / float32 parameters with Python-scalar or bool arguments) are evaluated by NumPy in float32; "
+    "compared at 2e-3 at well-conditioned points only; NumPy fixed-width integer parameters / integer-typed x with integer exponents "
+    "(overflow, 'Integers to negative integer powers') are reported as information, the theorems are about real parameters",
 ]
 
 METHODS = ["transform", "inverse", "deriv", "deriv2", "deriv3", "deriv_inverse", "deriv2_inverse", "deriv3_inverse"]
@@ -278,14 +321,21 @@ def corr(ctx: Ctx):
                 ok = mval is not None and (close(iv, mval, rtol=1e-10, atol=atol) or (is_end and _both_huge(iv, mval)))
             if not ok and tag == "ok" and mval is not None and not is_end:
                 ok = _within_rounding_noise(ctx, mod, op, cls, ps, trim, meth, x, iv, mval)
+                if not ok and _noise_verdict(cls, ps, trim, op == "evalinv", meth, x, iv, mval) == "ill":
+                    # both double evaluations are off the 40-digit value (residue of an exact cancellation, e.g. the third
+                    # derivative of the inverse Handy map with m = 0.5 vanishes at x = 0): nothing to compare
+                    ctx.tagc("ill-conditioned-point-not-compared")
+                    ok = True
             if not ok:
                 ctx.fail("corr", f"{op}:{cls}.{meth}", f"{'InverseRTransform of ' if op == 'evalinv' else ''}{cls}{tuple(ps)} trim={trim} "
                          f"{meth}({x!r}) [array of {len(arg)}]: implementation {iv!r}, generated model {a if mval is None else mval!r}",
                          witness={"class": cls, "params": ps, "trim": trim, "method": meth, "x": x, "wrapped": op == "evalinv",
                                   "impl": iv, "model": a if mval is None else mval})
     _corr_guards(ctx, mod)
+    _corr_round2(ctx, mod)      # before the parts that consult the translator (which raises on source it cannot carry)
     _corr_scalar_and_convinf(ctx, mod)
     _corr_inferred_b(ctx, mod)
+    c03_ext.corr_ext(ctx, CLASSES, gen_params, construct, _within_rounding_noise, end_points)
 
 
 def _within_rounding_noise(ctx, mod, op, cls, ps, trim, meth, x, iv, mval):
@@ -300,7 +350,11 @@ def _within_rounding_noise(ctx, mod, op, cls, ps, trim, meth, x, iv, mval):
             ref = hp_call(T, meth, x)
     except Exception:  # noqa: BLE001
         return False
-    if not mpmath.isfinite(ref) or ref == 0:
+    if ref == 0:
+        # the exact value vanishes (e.g. the third derivative of the inverse Handy map with m = 0.5 at x = 0): both double
+        # evaluations leave rounding residue of a cancellation
+        return abs(iv) <= 1e-9 and abs(mval) <= 1e-9
+    if not mpmath.isfinite(ref):
         return False
     noise = abs((mpmath.mpf(iv) - ref) / ref)
     ctx.tagc("conditioning-fallback")
@@ -573,9 +627,20 @@ assert not bad, f'{{cls}}{{tuple(ps)}} with the Python float {{x}}: {{bad}}'
 def _grid(cls, budget, rng):
     """parameter grid of the oracle"""
     out = []
-    expo = [1, 2, 3, 4, 0.5, 2.5, 3.7, 6] if budget == "small" else [1, 2, 3, 4, 5, 6, 0.5, 0.7, 1.5, 2.5, 3.3, 3.7, 4.5, 5.9, 6.0]
-    rmins = [0.0, 0.1] if budget == "small" else [0.0, 1e-3, 0.1, 1.7]
-    Rs = [1.5] if budget == "small" else [0.3, 1.0, 1.5, 4.0]
+    small = budget == "small"
+    expo = [1, 2, 3, 4, 0.5, 2.5, 3.7, 6, 8] if small else [1, 2, 3, 4, 5, 6, 7, 8, 0.5, 0.7, 1.5, 2.5, 3.3, 3.7, 4.5, 5.9, 6.0, 7.5]
+    rmins = [0.0, 0.1] if small else [0.0, 1e-3, 0.1, 1.7]
+    Rs = [1.5, 1000.0] if small else [0.3, 1.5, 4.0, 1e3, 1e6]
+    if small and cls in ("KnowlesRTransform", "HandyRTransform", "HandyModRTransform"):
+        # every exponent of the list on every run: k, m < 1, = 1, = 2, integers >= 3, non-integers, the largest (terms of
+        # the closed forms vanish at 1 and 2; 2**m = 2*m at m = 1, 2; abs(k - 1) = k - 1 unless k < 1), large R, trim on and off
+        for e in expo:
+            a, R = rng.choice(rmins), rng.choice(Rs)
+            out.append(([a, R, e], True) if cls != "HandyModRTransform" else ([a, a + 2.0 ** e - 1 + rng.choice([0.3, 5.0, 40.0]), e], True))
+        e = rng.choice([3, 3.7])
+        out.append(([0.0, 1000.0, e], True) if cls != "HandyModRTransform" else ([0.1, 0.1 + 2.0 ** e + 1000.0, e], True))
+        out.append(([0.1, 1.5, 3], False) if cls != "HandyModRTransform" else ([0.1, 20.1, 3], False))
+        return out
     if cls in ("BeckeRTransform", "MultiExpRTransform"):
         out = [([a, R], tr) for a in rmins for R in Rs for tr in (True, False)]
     elif cls == "LinearFiniteRTransform":
@@ -591,17 +656,42 @@ def _grid(cls, budget, rng):
         out = [([a, R, e], tr) for a in rmins[:2] for R in Rs for e in expo for tr in (True,)]
     elif cls == "HandyModRTransform":
         out = [([a, a + 2.0 ** e - 1 + d, e], True) for a in rmins[:2] for e in expo for d in (0.3, 5.0, 40.0)]
-    if budget == "small" and len(out) > 10:
-        keep = out[:2] + rng.sample(out[2:], 8)
-        # the m >= 3 cases always stay (that is where the repaired defect lived)
-        keep += [o for o in out if len(o[0]) == 3 and o[0][2] in (3, 3.7, 2.5) and o not in keep][:6]
-        out = keep
+    if small and len(out) > 10:
+        out = out[:2] + rng.sample(out[2:], 8)
     return out
+
+
+# points next to the ends of [-1, 1] (small budget, extra ones of the large budget); only ends where the double evaluation of
+# the round trip is still meaningful (the maps with (1+x)**k are flat at -1: r - rmin underflows below the rounding of rmin)
+NEAR_ENDS = {
+    "BeckeRTransform": ([-1 + 1e-7, 0.9999, 1 - 1e-7], [1 - 1e-12, -1 + 1e-12]),
+    "MultiExpRTransform": ([-1 + 1e-7, 1 - 1e-7], [-1 + 1e-12, 0.9999]),
+    "KnowlesRTransform": ([1 - 1e-7], [0.9999, 1 - 1e-10]),
+    "HandyRTransform": ([0.9999, 1 - 1e-7], [1 - 1e-12]),
+    "HandyModRTransform": ([1 - 1e-7], [0.9999]),
+    "LinearFiniteRTransform": ([1 - 1e-7], [-1 + 1e-12]),
+}
+
+
+def _otol(cls, x, base, factor):
+    """tolerance of a double-precision evaluation at x: `base`, widened next to an end of [-1, 1] where 1 -+ x carries a
+    relative rounding error eps / distance (times the exponents of the closed forms)"""
+    if cls in FINITE_DOMAIN:
+        return max(base, factor * 1.1e-16 / max(min(1 - x, 1 + x), 1e-300))
+    return base
+
+
+def _snippet(tol, **kw):
+    s = SNIPPET.format(**kw)
+    return s if tol <= 1e-7 else s.replace("<= 1e-7 * max(abs(num), 1e-12)", f"<= {float(tol)!r} * max(abs(num), 1e-12)")
 
 
 def _xs_for(cls, ps, budget):
     if cls in FINITE_DOMAIN:
-        return [-0.6, 0.3] if budget == "small" else [-0.95, -0.6, -0.1, 0.3, 0.8, 0.97]
+        near = NEAR_ENDS[cls][0] + ([] if budget == "small" else NEAR_ENDS[cls][1])
+        # exponents above 6: (1+x)**k at -0.95 is below the rounding of rmin, the double-precision round trip has no digits left
+        lo = -0.7 if len(ps) == 3 and ps[2] > 6 else -0.95
+        return ([-0.6, 0.3] if budget == "small" else [lo, -0.6, -0.1, 0.3, 0.8, 0.97]) + near
     if cls == "HyperbolicRTransform":
         return [f / ps[1] for f in ((0.2, 0.7) if budget == "small" else (0.05, 0.2, 0.5, 0.7, 0.95))]
     if cls in B_SCALED:
@@ -632,11 +722,13 @@ def oracle(ctx: Ctx, budget: str):
                     for order, meth in ((1, "deriv"), (2, "deriv2"), (3, "deriv3")):
                         num = mp.diff(lambda y: hp_call(T, "transform", y), xm, order)
                         got = _vals(getattr(Tf, meth)(np.array([x])))[0]
-                        if not abs(got - num) <= 1e-7 * max(abs(num), 1e-12):
-                            ctx.fail("oracle", f"{key}.{meth}", f"{cls}{tuple(ps)}.{meth}({x}) = {got!r}, but the order-{order} derivative of "
+                        tol = _otol(cls, x, 1e-7, 2e3)
+                        ctx.count(["oracle", cls, ps, trim, meth, x], nontrivial=True, tag="oracle:near-end" if tol > 1e-7 else "oracle:interior")
+                        if not abs(got - num) <= tol * max(abs(num), 1e-12):
+                            ctx.fail("oracle", f"{key}.{meth}", f"{cls}{tuple(ps)} trim={trim}: {meth}({x!r}) = {got!r}, but the order-{order} derivative of "
                                      f"transform there is {mp.nstr(num, 15)}",
                                      witness={"class": cls, "params": ps, "x": x, "method": meth, "got": got, "want": float(num)},
-                                     snippet=SNIPPET.format(cls=cls, ps=list(ps), trim=trim, meth=meth, x=x, order=order, base="transform"))
+                                     snippet=_snippet(tol, cls=cls, ps=list(ps), trim=trim, meth=meth, x=x, order=order, base="transform"))
                     # (2) round trips, in 40 digits (formulas are exact inverses) and in double precision
                     r = hp_call(T, "transform", xm)
                     back = hp_call(T, "inverse", r)
@@ -653,16 +745,17 @@ def oracle(ctx: Ctx, budget: str):
                         ctx.fail("oracle", f"{key}.inverse", f"{cls}{tuple(ps)}: inverse(transform({x})) = {bf!r} in double precision",
                                  witness={"class": cls, "params": ps, "x": x})
                     # (3) inverse-derivative methods = derivatives of the inverse map
-                    for order, meth in ((1, "deriv_inverse"), (2, "deriv2_inverse"), (3, "deriv3_inverse")):
+                    tol = _otol(cls, x, 1e-6, 2e4)
+                    for order, meth in ((1, "deriv_inverse"), (2, "deriv2_inverse"), (3, "deriv3_inverse")) if tol < 0.1 else ():
                         num = mp.diff(lambda y: hp_call(T, "inverse", y), mp.mpf(rf), order)
                         got = _vals(getattr(Tf, meth)(np.array([rf])))[0]
                         gi = _vals(getattr(mod.InverseRTransform(Tf), meth.replace("_inverse", ""))(np.array([rf])))[0]
                         for who, g in ((f"{cls}.{meth}", got), (f"InverseRTransform({cls}).{meth.replace('_inverse', '')}", gi)):
-                            if not abs(g - num) <= 1e-6 * max(abs(num), 1e-12):
+                            if not abs(g - num) <= tol * max(abs(num), 1e-12):
                                 ctx.fail("oracle", f"{key}.{meth}", f"{who}({rf}) with parameters {tuple(ps)} = {g!r}, but the order-{order} "
                                          f"derivative of inverse there is {mp.nstr(num, 15)}",
                                          witness={"class": cls, "params": ps, "r": rf, "method": meth, "got": g, "want": float(num)},
-                                         snippet=SNIPPET.format(cls=cls, ps=list(ps), trim=trim, meth=meth, x=rf, order=order, base="inverse"))
+                                         snippet=_snippet(max(tol, 1e-6), cls=cls, ps=list(ps), trim=trim, meth=meth, x=rf, order=order, base="inverse"))
                     # (4) monotone on the domain of use
                     if prev is not None and not (sign * (r - prev) > 0):
                         ctx.fail("oracle", f"{key}.monotone", f"{cls}{tuple(ps)}: transform is not strictly {'de' if sign < 0 else 'in'}creasing "
@@ -672,6 +765,8 @@ def oracle(ctx: Ctx, budget: str):
     _oracle_knowles_end_point(ctx, mod, budget)
     _oracle_scalar_arguments(ctx, mod)
     _oracle_excluded_parameters(ctx, mod)
+    _oracle_round2(ctx, mod, budget)
+    c03_ext.oracle_ext(ctx, budget, CLASSES, gen_params, construct, end_points)
 
 
 def _oracle_end_points(ctx, cls, ps, trim, Tf, T):
@@ -785,3 +880,1027 @@ def _oracle_excluded_parameters(ctx, mod):
     T = mod.HyperbolicRTransform(1.0, 0.1)
     ctx.info("declared domain (0, inf) of HyperbolicRTransform(1, 0.1) beyond the pole 1/b = 10: transform(np.array([20.0])) = "
              f"{show(T, 'transform', 20.0)} (negative); the theorems are on the domain of use (0, 1/b)")
+
+
+# ============================================================================
+# round 2: parameter kinds, argument kinds, extreme parameters, state carried between calls.
+#
+# Every case is a replayable script: python source statements that build the objects and the arguments, followed by one
+# call.  The same scripts are compared with the generated Lean model (correspondence) and, on a smaller sample, with the
+# 40-digit reference (oracle); `oracle_at` re-runs the script of a correspondence disagreement against that reference.
+# ============================================================================
+import warnings  # noqa: E402
+
+PARAM_NAMES = {
+    "BeckeRTransform": ["rmin", "R"], "LinearFiniteRTransform": ["rmin", "rmax"], "IdentityRTransform": [],
+    "LinearInfiniteRTransform": ["rmin", "rmax", "b"], "ExpRTransform": ["rmin", "rmax", "b"],
+    "PowerRTransform": ["rmin", "rmax", "b"], "HyperbolicRTransform": ["a", "b"], "MultiExpRTransform": ["rmin", "R"],
+    "KnowlesRTransform": ["rmin", "R", "k"], "HandyRTransform": ["rmin", "R", "m"], "HandyModRTransform": ["rmin", "rmax", "m"]}
+# methods whose value does not depend on the argument (`np.ones(x.size) * constant`, `x` itself): the answer is the
+# float64 constant whatever the dtype of the argument, so these are compared at full precision for every dtype
+XFREE = {(c, m) for c in ("LinearFiniteRTransform", "IdentityRTransform", "LinearInfiniteRTransform")
+         for m in METHODS if m not in ("transform", "inverse")} | {("IdentityRTransform", "transform"), ("IdentityRTransform", "inverse")}
+WRAP_OF = {"transform": "inverse", "inverse": "transform", "deriv": "deriv_inverse", "deriv2": "deriv2_inverse",
+           "deriv3": "deriv3_inverse", "deriv_inverse": "deriv", "deriv2_inverse": "deriv2", "deriv3_inverse": "deriv3"}
+ORDER_OF = {"deriv": 1, "deriv2": 2, "deriv3": 3, "deriv_inverse": 1, "deriv2_inverse": 2, "deriv3_inverse": 3}
+INT_KINDS = ("int64", "int32", "bool", "np.int64")
+ARG_KINDS = ["float64", "int64", "int32", "bool", "float32", "2d", "0d", "pyfloat", "pyint", "np.float64", "np.float32",
+             "np.int64", "noncontig", "reversed-view", "readonly", "repeated"]
+
+
+def _flist(v):
+    return "[" + ", ".join(repr(float(t)) for t in v) + "]"
+
+
+def _param_src(v, kind):
+    if kind == "int":
+        return repr(int(v))
+    if kind in ("np.int64", "np.int32"):
+        return f"{kind}({int(v)})"
+    if kind == "float":
+        return repr(float(v))
+    return f"{kind}({float(v)!r})"
+
+
+def _pkinds_of(ps):
+    return ["int" if isinstance(p, int) else "float" for p in ps]
+
+
+def _obj(name, cls, ps, trim, pkinds=None, style="kwtrim", wrapped=False, b_none=False):
+    """one transform object of a script: model parameters (floats, float32 parameters at their rounded value) + source"""
+    pkinds = list(pkinds or _pkinds_of(ps))
+    vals, srcs = [], []
+    for p, k in zip(ps, pkinds):
+        if k == "np.float32":
+            p = float(np.float32(p))
+        vals.append(float(p))
+        srcs.append(_param_src(p, k))
+    return dict(name=name, cls=cls, ps=vals, srcs=srcs, pkinds=pkinds, trim=(bool(trim) if cls in HAS_TRIM else None),
+                style=style, wrapped=wrapped, b_none=b_none)
+
+
+def _ctor(o):
+    """statements that build the object: positional / keyword parameters, trim_inf keyword / positional / left at its default"""
+    names = PARAM_NAMES[o["cls"]]
+    srcs = o["srcs"][:2] if o["b_none"] else o["srcs"]
+    args = [f"{n}={s}" for n, s in zip(names, srcs)] if o["style"] == "kw" else list(srcs)
+    if o["b_none"] and o["style"] == "kw":
+        args.append("b=None")
+    if o["trim"] is not None:
+        if o["style"] == "pos":
+            args.append(repr(o["trim"]))
+        elif not (o["style"] == "default" and o["trim"]):
+            args.append(f"trim_inf={o['trim']}")
+    out = [f"{o['name']} = rt.{o['cls']}({', '.join(args)})"]
+    if o["wrapped"]:
+        out.append(f"{o['name']} = rt.InverseRTransform({o['name']})")
+    return out
+
+
+def _step(o, meth, pre, arg, xs, kind, f32=False, shape=None, argvar=None, ps=None, sub="int"):
+    return dict(o=o, ps=list(o["ps"] if ps is None else ps), meth=meth, pre=list(pre), call=f"{o['name']}.{meth}({arg})",
+                xs=[float(x) for x in xs], kind=kind, f32=f32, shape=shape, argvar=argvar, sub=sub)
+
+
+def _single(st):
+    """does the arithmetic of this call run in single precision?  (NumPy >= 2 promotion: a float32 array or scalar combined
+    with Python numbers stays float32; float32 parameters combined with a Python float / int or a bool array stay float32;
+    a float64 array or np.float64 argument promotes everything that touches it)"""
+    return st["f32"] or ("np.float32" in st["o"]["pkinds"] and st["kind"] in ("pyfloat", "pyint", "bool"))
+
+
+def _rtol_of(st):
+    o = st["o"]
+    r = 1e-10
+    if _single(st) and (o["cls"], st["meth"]) not in XFREE:
+        r = 2e-3        # single-precision arithmetic at benign points (1 - q**k, 1 - exp(..) lose 3-4 of the 7 digits)
+    if "np.float32" in o["pkinds"]:
+        r = max(r, 1e-5)    # parameter-only subexpressions (2**k, 1/m, log(rmax/rmin)) run in single precision
+    return r
+
+
+def _expected_tag(st):
+    o = st["o"]
+    if o["cls"] == "HyperbolicRTransform" and st["ps"][1] * (len(st["xs"]) - 1) >= 1.0:
+        return "value-error"
+    return "ok"
+
+
+def _pert(x, bits):
+    return 2.0 ** -bits * max(abs(x), 1.0)
+
+
+def _noise_verdict(cls, ps, trim, wrapped, meth, x, iv, mval):
+    """Model and implementation disagree beyond rtol at x: 'ok' | 'bad' | 'ill'.  The rounding noise of either double
+    evaluation is measured against the same implementation code run in 40-digit arithmetic.  'ok': one of the two is
+    within 1e-5 of the 40-digit value and the other within 100x that distance (a changed coefficient or a stale value
+    moves the result by far more); 'ill': both double evaluations are off the 40-digit value by more than 1e-7 (the
+    formula is ill-conditioned at x, e.g. 1 - exp(-1e-15): two double evaluations cannot be compared there)."""
+    try:
+        T = construct_hp(cls, ps, trim)
+        if wrapped:
+            T = rt().InverseRTransform(T)
+        with np.errstate(all="ignore"):
+            ref = hp_call(T, meth, x)
+    except Exception:  # noqa: BLE001
+        return "bad"
+    if not mpmath.isfinite(ref) or ref == 0:
+        return "ill"
+
+    def dev(v):
+        return mpmath.inf if (v != v or abs(v) == float("inf")) else abs((mpmath.mpf(v) - ref) / ref)
+    ni, nm = dev(iv), dev(mval)
+    if (ni < 1e-5 and nm <= max(mpmath.mpf(1e-10), 100 * ni)) or (nm < 1e-5 and ni <= max(mpmath.mpf(1e-10), 100 * nm)):
+        return "ok"
+    return "ill" if min(ni, nm) > 1e-7 else "bad"
+
+
+class _Scripts:
+    """collects executed script steps; judged against the Lean model (`judge_model`) or the 40-digit reference
+    (`judge_reference`)"""
+
+    def __init__(self, ctx, mod, section):
+        self.ctx, self.mod, self.section = ctx, mod, section
+        self.done = []
+        self.notes = ctx.__dict__.setdefault("_c03_notes", {})
+
+    # -- running ---------------------------------------------------------------------------------------------------
+    def run(self, objs, steps):
+        setup = [s for o in objs for s in _ctor(o)]
+        ns = {"np": np, "rt": self.mod}
+        hist = list(setup)
+        kept = []
+        with np.errstate(all="ignore"), warnings.catch_warnings():
+            warnings.simplefilter("ignore")
+            for s in setup:
+                exec(s, ns)
+            for st in steps:
+                tag, v, note = "ok", None, ""
+                script = hist + st["pre"]
+                try:
+                    for s in st["pre"]:
+                        exec(s, ns)
+                    before = np.array(ns[st["argvar"]], copy=True) if st["argvar"] else None
+                    v = eval(st["call"], ns)
+                    if isinstance(v, np.ndarray) and st["argvar"] and v is ns[st["argvar"]]:
+                        # IdentityRTransform.transform / inverse hand back the argument object itself: judge the values
+                        # as they are now (a later in-place edit of the argument shows through such a result)
+                        self.notes.setdefault("alias", {})[f"{st['o']['cls']}.{st['meth']}"] = st["call"]
+                        v = v.copy()
+                    if before is not None and not np.array_equal(before, ns[st["argvar"]], equal_nan=True):
+                        note = "the call changed its argument in place"
+                    if isinstance(v, np.ndarray) and not (st["o"]["cls"] == "IdentityRTransform" and st["meth"] in ("transform", "inverse")):
+                        kept.append((st, script, v, v.copy()))
+                except ValueError as e:
+                    tag, note = "value-error", str(e)
+                except ZeroDivisionError as e:
+                    tag, note = "zero-division-error", str(e)
+                except Exception as e:  # noqa: BLE001 - reported by the judge
+                    tag, note = type(e).__name__, str(e)
+                hist = script + [f"_ = {st['call']}"]
+                st["reducible"] = not any(o["b_none"] for o in objs)     # (an inferred b depends on the earlier calls)
+                self.done.append((st, script, tag, v, note))
+        for st, script, v, v0 in kept:
+            if not np.array_equal(v, v0, equal_nan=True):
+                self.ctx.fail("corr", f"state:{st['o']['cls']}.{st['meth']}:{self.section}",
+                              f"the array returned by {st['call']} was changed by a later call of the same script",
+                              witness={"script": hist, "call": st["call"]})
+
+    def _desc(self, st):
+        o = st["o"]
+        return (f"[{self.section}/{st['kind']}] {'InverseRTransform of ' if o['wrapped'] else ''}{o['cls']}{tuple(st['ps'])} "
+                f"trim={o['trim']} after {st['call']}")
+
+    def _witness(self, st, script, j, iv, mv, **more):
+        o = st["o"]
+        w = {"class": o["cls"], "params": st["ps"], "trim": o["trim"], "method": st["meth"], "x": st["xs"][j] if st["xs"] else None,
+             "wrapped": o["wrapped"], "impl": iv, "model": mv, "script": script, "call": st["call"], "index": j, "size": len(st["xs"]),
+             "kind": st["kind"], "rtol": _rtol_of(st), "f32": _single(st), "reducible": st.get("reducible", False)}
+        w.update(more)
+        return w
+
+    def _known_quirk(self, st, tag, note):
+        """behaviour of the unchanged library on argument kinds at the edge of 'scalar or array': information, not a failure"""
+        if tag == "value-error" and "Integers to negative integer powers" in note:
+            k = f"{st['o']['cls']}.{st['meth']}"
+            self.notes.setdefault("int-power", {})[k] = f"{'; '.join(_ctor(st['o'])[:1] + st['pre'][-1:])}; {st['call']}"
+            self.ctx.tagc("r2:information:integer-dtype-negative-integer-power")
+            return True
+        return self._int_arith_quirk(st, tag, f"raises {tag}: {note[:80]}")
+
+    def _int_arith_quirk(self, st, tag, what):
+        """an integer-typed argument together with integer-typed parameters of the exponent classes: the closed forms are then
+        evaluated in fixed-width integer arithmetic (int32 array (op) Python int stays int32) and overflow, silently or with
+        OverflowError: information, reported once"""
+        o = st["o"]
+        if (st["kind"] in INT_KINDS + ("pyint",) and o["cls"] in ("KnowlesRTransform", "HandyRTransform", "HandyModRTransform")
+                and any(k in ("int", "np.int64", "np.int32") for k in o["pkinds"]) and tag in ("ok", "OverflowError")):
+            self.notes.setdefault("int-arith", {}).setdefault(
+                f"{o['cls']}.{st['meth']}", f"{'; '.join(_ctor(o)[:1] + st['pre'][-1:])}; {st['call']} {what}")
+            self.ctx.tagc("r2:information:integer-argument-and-integer-parameters-overflow")
+            return True
+        return False
+
+    def _shape_note(self, st, v):
+        if st["shape"] is not None and tuple(np.shape(v)) != tuple(st["shape"]):
+            k = f"{st['o']['cls']}.{st['meth']}"
+            self.notes.setdefault("shape", {}).setdefault(k, f"{st['kind']} argument of shape {tuple(st['shape'])} -> result of shape {tuple(np.shape(v))}")
+            self.ctx.tagc("r2:information:result-shape-differs-from-argument")
+
+    def flush_notes(self):
+        """notes are kept on the context and reported once per run by `_emit_notes`"""
+
+    def _count(self, st):
+        o = st["o"]
+        for x in st["xs"]:
+            self.ctx.count([self.section, o["cls"], st["meth"], st["ps"], o["trim"], o["wrapped"], st["kind"], o["srcs"], st["call"], x],
+                           nontrivial=True, tag=f"r2:{self.section}:{st['kind'] if self.section != 'wide' else st['sub']}")
+
+    # -- against the generated Lean model ----------------------------------------------------------------------------
+    def judge_model(self):
+        ctx = self.ctx
+        lines, idx = [], []
+        for i, (st, script, tag, v, note) in enumerate(self.done):
+            o = st["o"]
+            op = "evalinv" if o["wrapped"] else "eval"
+            n = len(st["xs"])
+            for x in st["xs"]:
+                lines.append(_line(op, o["cls"], st["meth"], o["trim"], n, st["ps"], x))
+                idx.append((i, 0))
+            if _single(st) and _rtol_of(st) > 1e-9:
+                # sensitivity of the model to a single-precision ulp of the argument (conditioning x eps32)
+                for x in st["xs"]:
+                    for sgn in (1, -1):
+                        lines.append(_line(op, o["cls"], st["meth"], o["trim"], n, st["ps"], x + sgn * _pert(x, 22)))
+                        idx.append((i, 1))
+        answers = driver_batch(lines)
+        per, pert = {}, {}
+        for (i, which), a in zip(idx, answers):
+            (pert if which else per).setdefault(i, []).append(a)
+        for i, (st, script, tag, v, note) in enumerate(self.done):
+            self._count(st)
+            self._judge_one_model(st, script, tag, v, note, per.get(i, []), pert.get(i))
+        self.done = []
+        self.flush_notes()
+
+    def _judge_one_model(self, st, script, tag, v, note, ans, pert):
+        ctx = self.ctx
+        o = st["o"]
+        cls, meth = o["cls"], st["meth"]
+        op = "evalinv" if o["wrapped"] else "eval"
+        key = f"{op}:{cls}.{meth}:{self.section}"
+
+        def fail(what, j=0, iv=None, mv=None):
+            ctx.fail("corr", key, f"{self._desc(st)}: {what}", witness=self._witness(st, script, j, iv, mv))
+        if tag != "ok":
+            ok = (tag in ans) if tag == "zero-division-error" else bool(ans) and all(a == tag for a in ans)
+            if not ok and not self._known_quirk(st, tag, note):
+                fail(f"implementation raises {tag} ({note[:80]}), generated model {ans[0] if ans else None}", 0, tag, ans[0] if ans else None)
+            return
+        try:
+            vals = _vals(v)
+        except Exception as e:  # noqa: BLE001
+            return fail(f"implementation returns {type(v).__name__} ({type(e).__name__})", 0, repr(v)[:80], ans[0] if ans else None)
+        if len(vals) != len(st["xs"]):
+            return fail(f"implementation returns {len(vals)} values for {len(st['xs'])} points", 0, vals[:6], ans[0] if ans else None)
+        if note:
+            return fail(note, 0, vals[0], ans[0])
+        self._shape_note(st, v)
+        rtol = _rtol_of(st)
+        xdom = meth == ("transform" if o["wrapped"] else "inverse")
+        for j, (x, iv, a) in enumerate(zip(st["xs"], vals, ans)):
+            toks = a.split()
+            mval = b2f(toks[1]) if toks[0] == "ok" and len(toks) == 2 else None
+            if mval is None:
+                fail(f"at {x!r}: implementation {iv!r}, generated model {a}", j, iv, a)
+                continue
+            atol = (rtol * 0.1 if rtol > 1e-9 else 1e-12) if xdom else 0.0
+            ok = close(iv, mval, rtol=rtol, atol=atol)
+            if not ok and pert is not None:
+                pm = [b2f(t.split()[1]) for t in pert[2 * j:2 * j + 2] if t.startswith("ok ") and len(t.split()) == 2]
+                if len(pm) == 2 and all(math.isfinite(p) for p in pm) and math.isfinite(mval):
+                    ok = abs(iv - mval) <= atol + rtol * max(abs(iv), abs(mval)) + 50 * max(abs(pm[0] - mval), abs(pm[1] - mval))
+                    if ok:
+                        ctx.tagc("r2:float32-conditioning-allowance")
+            if not ok and rtol <= 1e-9 and not _single(st):
+                verdict = _noise_verdict(cls, st["ps"], o["trim"], o["wrapped"], meth, x, iv, mval)
+                ctx.tagc("r2:ill-conditioned-point-not-compared" if verdict == "ill" else "r2:conditioning-fallback")
+                ok = verdict != "bad"
+            if not ok and not self._int_arith_quirk(st, "ok", f"= {iv!r}, the float64 argument gives {mval!r}"):
+                fail(f"at {x!r} [element {j} of {len(vals)}]: implementation {iv!r}, generated model {mval!r}", j, iv, mval)
+
+    # -- against the 40-digit reference -------------------------------------------------------------------------------
+    def judge_reference(self, refs):
+        ctx = self.ctx
+        for st, script, tag, v, note in self.done:
+            o = st["o"]
+            cls = o["cls"]
+            eff = WRAP_OF[st["meth"]] if o["wrapped"] else st["meth"]
+            key = f"rtransform.{cls}.{eff}"
+            self._count(st)
+            expect = _expected_tag(st)
+            if expect != "ok":
+                continue
+            if tag != "ok":
+                if not self._known_quirk(st, tag, note):
+                    ctx.fail("oracle", f"rtransform.{cls}.argument", f"{self._desc(st)}: a valid argument ({st['kind']}) is not accepted: {tag} {note[:100]}",
+                             witness=self._witness(st, script, 0, tag, None, reference=None),
+                             snippet=SNIPPET_ACCEPT.format(script="\n".join(script), call=st["call"]))
+                continue
+            try:
+                vals = _vals(v)
+            except Exception:  # noqa: BLE001
+                vals = []
+            if len(vals) != len(st["xs"]) or note:
+                ctx.fail("oracle", f"rtransform.{cls}.argument", f"{self._desc(st)}: " + (note or f"{len(vals)} values for {len(st['xs'])} points"),
+                         witness=self._witness(st, script, 0, repr(v)[:80], None, reference=None),
+                         snippet=None)
+                continue
+            self._shape_note(st, v)
+            for j, (x, iv) in enumerate(zip(st["xs"], vals)):
+                ref = _reference(refs, cls, st["ps"], o["trim"], eff, x)
+                if ref is None:
+                    continue
+                tol, atol = _oracle_tol(refs, st, eff, x, ref)
+                bad = not abs(mpmath.mpf(iv) - ref) <= tol * max(abs(ref), mpmath.mpf(1e-12)) + atol
+                if bad and eff in ORDER_OF:
+                    # a derivative that vanishes identically for these parameters (PowerRTransform with an integer power,
+                    # k = 1, m = 1 ...): the double evaluation leaves rounding residue of the coefficient (power - 1 ~ 1e-16);
+                    # measure it on the scale of the next lower derivative over the length scale of the argument
+                    low = {1: base_of(eff), 2: "deriv", 3: "deriv2"}[ORDER_OF[eff]] + ("_inverse" if eff.endswith("_inverse") and ORDER_OF[eff] > 1 else "")
+                    lref = _reference(refs, cls, st["ps"], o["trim"], low, x)
+                    if lref is not None:
+                        atol = tol * abs(lref) / (1 + abs(x))
+                        bad = not abs(mpmath.mpf(iv) - ref) <= tol * max(abs(ref), mpmath.mpf(1e-12)) + atol
+                if bad and self._int_arith_quirk(st, "ok", f"= {iv!r}, the float64 argument gives {mpmath.nstr(ref, 12)}"):
+                    continue
+                if bad:
+                    if len([f for f in ctx.failures if f.kind == "oracle" and f.key == key]) >= 3:
+                        continue
+                    script2, snip, remark = _script_and_snippet(
+                        ctx, self.mod, st.get("reducible"), lambda g: not abs(mpmath.mpf(g) - ref) <= tol * max(abs(ref), mpmath.mpf(1e-12)) + atol,
+                        cls, st["ps"], o["trim"], eff, x, script, st["call"], j, tol, atol)
+                    ctx.fail("oracle", key, f"{self._desc(st)}: element {j} (point {x!r}) = {iv!r}, but {_what_ref(eff)} there is "
+                             f"{mpmath.nstr(ref, 15)}{remark}",
+                             witness=self._witness(st, script2, j, iv, None, reference=mpmath.nstr(ref, 20), effective_method=eff, tol=tol),
+                             snippet=snip)
+        self.done = []
+        self.flush_notes()
+
+
+def base_of(eff):
+    return "inverse" if eff.endswith("inverse") else "transform"
+
+
+def _run_script(mod, script, call, index):
+    ns = {"np": np, "rt": mod}
+    with np.errstate(all="ignore"), warnings.catch_warnings():
+        warnings.simplefilter("ignore")
+        for s in script:
+            exec(s, ns)
+        return float(np.asarray(eval(call, ns), dtype=float).ravel()[index])
+
+
+def _fails_in_fresh_process(ctx, snippet):
+    """run a snippet in a new interpreter (same sys.path): True / False = it raises AssertionError or not; None = not tried
+    (at most 8 per run)"""
+    import os
+    import subprocess
+    import sys
+    left = ctx.__dict__.get("_c03_confirm_left", 8)
+    if left <= 0:
+        return None
+    ctx._c03_confirm_left = left - 1
+    env = dict(os.environ, PYTHONPATH=os.pathsep.join(q for q in sys.path if q))
+    try:
+        r = subprocess.run([sys.executable, "-c", snippet], capture_output=True, timeout=120, env=env)
+    except Exception:  # noqa: BLE001
+        return None
+    return r.returncode != 0 and b"AssertionError" in r.stderr
+
+
+def _script_and_snippet(ctx, mod, reducible, still_fails, cls, ps, trim, eff, x, script, call, index, tol, atol):
+    """-> (script, snippet, remark): the shortest replay of the failing call that still fails in a fresh process.  Earlier calls
+    are dropped when the failure does not depend on them; state left behind by earlier scripts of this process (a module-level
+    cache) is not available to the snippet, which is said in the remark when the replay does not reproduce on its own."""
+    cands = []
+    short = [s for s in script if not s.startswith("_ = ")]
+    if reducible and len(short) < len(script):
+        try:
+            if still_fails(_run_script(mod, short, call, index)):
+                cands.append(short)
+        except Exception:  # noqa: BLE001
+            pass
+    cands.append(list(script))
+    for c in cands:
+        snip = _snippet_at(cls, ps, trim, eff, x, c, call, index, tol, atol)
+        if _fails_in_fresh_process(ctx, snip) is not False:
+            return c, snip, ""
+    return cands[-1], snip, (" [replaying these calls alone in a fresh process does not reproduce it: the answer depends on calls made "
+                             "earlier in this run (state kept outside the object)]")
+
+
+def _what_ref(eff):
+    if eff in ORDER_OF:
+        return f"the order-{ORDER_OF[eff]} derivative of {'inverse' if eff.endswith('_inverse') else 'transform'}"
+    return f"the value r with inverse(r) = x" if eff == "transform" else "the value x with transform(x) = r"
+
+
+def _hp_object(refs, cls, ps, trim):
+    k = ("T", cls, tuple(ps), trim)
+    if k not in refs:
+        refs[k] = construct_hp(cls, ps, trim)
+    return refs[k]
+
+
+def _reference(refs, cls, ps, trim, eff, x):
+    """the quantity the property prescribes for method `eff` at x, from the implementation's own transform / inverse run
+    in 40-digit arithmetic: derivatives by numerical differentiation; transform(x) (inverse(r)) as the point certified by
+    the opposite map.  None when it does not exist (a pole, an uncertified round trip: the main oracle reports those)."""
+    k = (cls, tuple(ps), trim, eff, x)
+    if k in refs:
+        return refs[k]
+    mp = mpmath
+    out = None
+    try:
+        with np.errstate(all="ignore"):
+            T = _hp_object(refs, cls, ps, trim)
+            xm = mp.mpf(x)
+            if eff in ORDER_OF:
+                base = "inverse" if eff.endswith("_inverse") else "transform"
+                out = mp.diff(lambda y: hp_call(T, base, y), xm, ORDER_OF[eff])
+            else:
+                v = hp_call(T, eff, xm)
+                back = hp_call(T, WRAP_OF[eff], v)
+                if mp.isfinite(v) and abs(back - xm) <= mp.mpf(10) ** -25 * max(1, abs(xm)):
+                    out = v
+        if out is not None and not mp.isfinite(out):
+            out = None
+    except Exception:  # noqa: BLE001
+        out = None
+    refs[k] = out
+    return out
+
+
+def _ref_cond(refs, cls, ps, trim, eff, x, ref, bits):
+    """relative change of the reference under a change of the argument by 2^-bits (relative to max(|x|, 1))"""
+    h = _pert(x, bits)
+    nb = [_reference(refs, cls, ps, trim, eff, x + s * h) for s in (1, -1)]
+    if ref == 0 or any(n is None for n in nb):
+        return None
+    return max(abs(n - ref) for n in nb) / abs(ref)
+
+
+def _oracle_tol(refs, st, eff, x, ref):
+    o = st["o"]
+    xdom = eff == "inverse"
+    if (o["cls"], st["meth"]) in XFREE:
+        t = 1e-12
+    elif _single(st):
+        ce = _ref_cond(refs, o["cls"], st["ps"], o["trim"], eff, x, ref, 22)
+        t = 2e-3 + 50 * float(ce if ce is not None else 1.0)
+    else:
+        t = 1e-6 if eff.endswith("_inverse") else 1e-7
+    if "np.float32" in o["pkinds"]:
+        t = max(t, 1e-5)
+    return t, ((t * 0.1 if t > 1e-9 else 1e-11) if xdom else 0.0)
+
+
+SNIPPET_AT = HP_SRC + '''
+import warnings; warnings.filterwarnings('ignore')
+import numpy as np
+from grid import rtransform as rt
+np.seterr(all='ignore')
+cls, ps, trim, meth, x, order, base = {cls!r}, {ps!r}, {trim!r}, {meth!r}, {x!r}, {order}, {base!r}
+# the calls made in this process before the one under test (objects, arguments, earlier calls)
+{script}
+got = float(np.asarray({call}, dtype=float).ravel()[{index}])      # the call under test, element at the point x
+kw = dict(trim_inf=trim) if trim is not None else dict()
+T = getattr(rt, cls)(*[HP(p) for p in ps], **kw)          # the implementation, executed in 40-digit arithmetic
+if order:
+    ref = mpmath.diff(lambda y: hp_call(T, base, y), mpmath.mpf(x), order)     # numerical derivative of `base`
+    what = f'numerical derivative of order {{order}} of {{base}}'
+else:
+    ref = hp_call(T, base, mpmath.mpf(x))
+    assert abs(hp_call(T, {other!r}, ref) - x) <= mpmath.mpf(10) ** -25 * max(1, abs(x)), f'{{cls}}{{tuple(ps)}}: {other}({{base}}({{x}})) != {{x}} in 40-digit arithmetic'
+    what = f'the point that {other} sends back to {{x}}'
+assert abs(got - ref) <= {tol!r} * max(abs(ref), 1e-12) + {atol!r}, f'{{cls}}{{tuple(ps)}}: {call} [{index}] = {{got}}, {{what}} = {{mpmath.nstr(ref, 15)}}'
+'''
+
+SNIPPET_ACCEPT = '''import warnings; warnings.filterwarnings('ignore')
+import numpy as np
+from grid import rtransform as rt
+np.seterr(all='ignore')
+{script}
+try:
+    got = {call}
+except Exception as e:
+    raise AssertionError(f'a valid argument is not accepted: {{type(e).__name__}}: {{e}}')
+'''
+
+
+def _snippet_at(cls, ps, trim, eff, x, script, call, index, tol, atol):
+    base = "inverse" if eff.endswith("inverse") else "transform"
+    return SNIPPET_AT.format(cls=cls, ps=list(ps), trim=trim, meth=eff, x=x, order=ORDER_OF.get(eff, 0), base=base,
+                             other=WRAP_OF[base], script="\n".join(script), call=call, index=index, tol=float(tol), atol=float(atol))
+
+
+# -- generators of scripts ---------------------------------------------------------------------------------------------
+def _nice_params(cls, rng):
+    """admissible parameters that are integers or small dyadic numbers (exact as float32; integer ones also as int kinds)"""
+    rmin = rng.choice([0.0, 1.0, 0.5, 0.125, 2.0])
+    R = rng.choice([1.0, 2.0, 0.5, 1.5, 1024.0])
+    e = rng.choice([float(rng.randint(1, 8)), rng.randint(0, 7) + 0.5, rng.choice([0.75, 2.25, 3.0, 1.0])])
+    if cls in ("BeckeRTransform", "MultiExpRTransform"):
+        return [rmin, R]
+    if cls == "LinearFiniteRTransform":
+        return [rmin, rmin + rng.choice([1.0, 4.5, 20.0])]
+    if cls == "IdentityRTransform":
+        return []
+    if cls in B_SCALED:
+        if cls != "LinearInfiniteRTransform" and rmin == 0.0:
+            rmin = 0.25
+        rmax, b = rmin + rng.choice([1.5, 4.0, 20.0]), rng.choice([1.0, 3.0, 0.5, 10.0, 7.5])
+        if cls == "PowerRTransform":
+            # an integer power (rmax/rmin = (b+1)**n) makes deriv2 or deriv3 vanish identically; with float32 parameters the
+            # double model gives 0 and the implementation single-precision residue of (power - 1): nothing to compare
+            while abs((p := math.log(rmax / rmin) / math.log(b + 1)) - round(p)) < 1e-6:
+                b = rng.choice([1.0, 3.0, 0.5, 10.0, 7.5])
+        return [rmin, rmax, b]
+    if cls == "HyperbolicRTransform":
+        return [rng.choice([1.0, 2.0, 0.5, 1.5]), rng.choice([1 / 64, 1 / 16, 1 / 8])]
+    if cls in ("KnowlesRTransform", "HandyRTransform"):
+        return [rmin, R, e]
+    if cls == "HandyModRTransform":
+        return [rmin, rmin + math.ceil(2.0 ** e - 1) + rng.choice([0.5, 2.0, 10.0, 40.0]), e]
+    raise KeyError(cls)
+
+
+def _pick_pkinds(ps, rng, allow32=True, int32=True):
+    out = []
+    for p in ps:
+        ks = ["float", "np.float64"] + (["np.float32"] if allow32 else [])
+        if float(p) == int(p):
+            ks += ["int", "np.int64"] + (["np.int32"] if int32 else [])
+        out.append(rng.choice(ks))
+    return out
+
+
+def _benign_points(cls, ps, rng, n):
+    if cls in FINITE_DOMAIN:
+        return [round(rng.uniform(-0.7, 0.7), rng.choice([2, 6, 15])) for _ in range(n)]
+    if cls == "HyperbolicRTransform":
+        return [rng.uniform(0.05, 0.9) / ps[1] for _ in range(n)]
+    if cls in B_SCALED:
+        return [rng.uniform(0.05, 2.0) * ps[2] for _ in range(n)]
+    return [rng.uniform(0.05, 30.0) for _ in range(n)]
+
+
+def _is_benign(cls, ps, x):
+    if not math.isfinite(x):
+        return False
+    if cls in FINITE_DOMAIN:
+        return -0.75 <= x <= 0.75
+    if cls == "HyperbolicRTransform":
+        return 0.02 / ps[1] <= x <= 0.92 / ps[1]
+    if cls in B_SCALED:
+        return 0.04 * ps[2] <= x <= 2.2 * ps[2]
+    return 0.04 <= x <= 40.0
+
+
+def _side_points(cls, ps, trim, rng):
+    """-> {True: forward-side point sets, False: codomain-side point sets}; each dict(pts, ipts, dy)"""
+    fin = cls in FINITE_DOMAIN
+    n = rng.choice([2, 3, 4])
+    pts = _benign_points(cls, ps, rng, n)
+    # integer points and single-precision points stay in the well-conditioned middle of the domain (single precision: the
+    # formulas 1 - q**k, 1 - exp(..), (1 + x)**(m - 3) lose most of the 7 digits next to an end); float32 points at their
+    # float32 value (dyadic fractions of the scale: exact whenever the scale has few bits)
+    if fin:
+        ipts = [0]
+        dcand = [-0.25, 0.0, 0.25, 0.5, 0.625, 0.125, 0.375]
+    else:
+        ipts = [k for k in range(1, 61) if _is_benign(cls, ps, k)]
+        ipts = sorted(rng.sample(ipts, min(3, len(ipts))))
+        scale = ps[2] if cls in B_SCALED else (1 / ps[1] if cls == "HyperbolicRTransform" else 2.0)
+        dcand = [float(np.float32(f * scale)) for f in ((0.125, 0.25, 0.375, 0.5, 0.625, 0.75) if cls == "HyperbolicRTransform"
+                                                        else (0.125, 0.25, 0.5, 0.75, 1.0, 1.25, 1.5))]
+    dy, dy2 = rng.sample(dcand, 3), rng.sample(dcand, 3)
+    with np.errstate(all="ignore"), warnings.catch_warnings():
+        warnings.simplefilter("ignore")
+        T = construct(cls, ps, trim)
+        rpts = _vals(T.transform(np.array(pts)))
+        rdy = [float(np.float32(r)) for r in _vals(T.transform(np.array(dy2)))]      # images, at their float32 value
+        lo, hi = (float(t) for t in T.codomain)
+        grid = [-0.7 + 0.1 * i for i in range(15)] if fin else [f * (ps[2] if cls in B_SCALED else (1 / ps[1] if cls == "HyperbolicRTransform" else 10.0))
+                                                                for f in (0.06, 0.1, 0.2, 0.3, 0.45, 0.6, 0.75, 0.9, 1.2, 1.6, 2.0)]
+        if cls == "HyperbolicRTransform":
+            grid = [g for g in grid if g * ps[1] < 0.92]
+        cand = sorted({int(round(r)) for r in _vals(T.transform(np.array(grid))) if math.isfinite(r) and abs(r) < 1e9})
+        cand = [k for k in cand if lo < k < hi and _is_benign(cls, ps, _vals(T.inverse(np.array([float(k)])))[0])]
+    ri = sorted(rng.sample(cand, min(3, len(cand))))
+    return {True: dict(pts=pts, ipts=ipts, dy=dy), False: dict(pts=rpts, ipts=ri, dy=rdy)}
+
+
+def _arg_of_kind(kind, P):
+    """-> (pre statements, argument source, model points, single precision?, expected shape, variable to watch) or None"""
+    pts, ipts, dy = P["pts"], P["ipts"], P["dy"]
+    if kind in ("int64", "int32", "bool", "pyint", "np.int64") and not ipts:
+        return None
+    if kind in ("float32", "np.float32") and not dy:
+        return None
+    if kind == "float64":
+        return [f"a = np.array({_flist(pts)})"], "a", pts, False, (len(pts),), "a"
+    if kind in ("int64", "int32"):
+        return [f"a = np.array({list(ipts)!r}, dtype=np.{kind})"], "a", ipts, False, (len(ipts),), "a"
+    if kind == "bool":
+        if ipts[0] not in (0, 1):
+            return None
+        return [f"a = np.array([{bool(ipts[0])}])"], "a", ipts[:1], False, (1,), "a"
+    if kind == "float32":
+        return [f"a = np.array({_flist(dy)}, dtype=np.float32)"], "a", dy, True, (len(dy),), "a"
+    if kind == "2d":
+        p4 = (list(pts) * 4)[:4]
+        return [f"a = np.array({_flist(p4)}).reshape(2, 2)"], "a", p4, False, (2, 2), "a"
+    if kind == "0d":
+        return [f"a = np.array({float(pts[0])!r})"], "a", pts[:1], False, (), "a"
+    if kind == "pyfloat":
+        return [], repr(float(pts[0])), pts[:1], False, (), None
+    if kind == "pyint":
+        return [], repr(int(ipts[0])), ipts[:1], False, (), None
+    if kind == "np.float64":
+        return [], f"np.float64({float(pts[0])!r})", pts[:1], False, (), None
+    if kind == "np.float32":
+        return [], f"np.float32({float(dy[0])!r})", dy[:1], True, (), None
+    if kind == "np.int64":
+        return [], f"np.int64({int(ipts[0])})", ipts[:1], False, (), None
+    if kind == "noncontig":
+        inter = [t for i, p in enumerate(pts) for t in (p, pts[(i + 1) % len(pts)])]
+        return [f"a = np.array({_flist(inter)})[::2]"], "a", pts, False, (len(pts),), "a"
+    if kind == "reversed-view":
+        return [f"a = np.array({_flist(pts[::-1])})[::-1]"], "a", pts, False, (len(pts),), "a"
+    if kind == "readonly":
+        return [f"a = np.array({_flist(pts)})", "a.setflags(write=False)"], "a", pts, False, (len(pts),), "a"
+    if kind == "repeated":
+        q = list(pts) + [pts[0]]
+        return [f"a = np.array({_flist(q)})"], "a", q, False, (len(q),), "a"
+    raise KeyError(kind)
+
+
+def _script_kinds(S, cls, rng, rep):
+    """audit classes 1, 2, 6: every argument kind x every method on one object built from parameters of mixed kinds"""
+    if rep % 2 == 1:
+        # integers / dyadic numbers: exact as float32 and (integers) as Python int, np.int64, np.int32
+        ps = _nice_params(cls, rng)
+        # (np.int32 rmin, rmax of HandyModRTransform overflow silently in deriv3: reported by the fixed probe, not drawn here)
+        pk = _pick_pkinds(ps, rng, allow32=True, int32=(cls != "HandyModRTransform"))
+    else:
+        # generic decimal parameters as float / np.float64 (constants such as (rmax - rmin) / 2 are then not representable in
+        # single precision: a result computed or stored as float32 shows)
+        ps = gen_params(cls, rng)[0]
+        # (Python floats on rep 0, 4, ..: an np.float64 parameter would promote a float32 intermediate back to double)
+        pk = [k if k == "int" or rep % 4 == 0 else rng.choice(["float", "np.float64"]) for k in _pkinds_of(ps)]
+    trim = rng.random() < 0.5
+    o = _obj("T0", cls, ps, trim, pkinds=pk, style=rng.choice(["kwtrim", "kw", "pos", "default"]), wrapped=(rep % 3 == 2))
+    sides = _side_points(cls, o["ps"], trim, rng)
+    steps = []
+    for kind in ARG_KINDS:
+        for meth in METHODS:
+            got = _arg_of_kind(kind, sides[(meth in FWD) != o["wrapped"]])
+            if got is None:
+                continue
+            pre, arg, xs, f32, shape, argvar = got
+            steps.append(_step(o, meth, pre, arg, xs, kind, f32=f32, shape=shape, argvar=argvar))
+    S.run([o], steps)
+
+
+def _gen_params_wide(cls, rng):
+    """extreme but admissible parameters: rmin = 0, scale factors from 1e-3 to 1e6, exponents over [0.5, 8]"""
+    e = rng.choice([rng.randint(1, 8), float(rng.randint(1, 8)), rng.randint(0, 7) + 0.5, round(rng.uniform(0.5, 8.0), 3)])
+    rmin = rng.choice([0.0, 0.0, 1e-6, 0.3, 7.0])
+    R = rng.choice([1e-3, 0.7, 1.0, 1e3, 1e6])
+    trim = rng.random() < 0.7
+    if cls in ("BeckeRTransform", "MultiExpRTransform"):
+        return [rmin, R], trim
+    if cls == "LinearFiniteRTransform":
+        return [rmin, rmin + rng.choice([1e-3, 2.0, 1e6])], None
+    if cls == "IdentityRTransform":
+        return [], None
+    if cls in B_SCALED:
+        if cls != "LinearInfiniteRTransform" and rmin == 0.0:
+            rmin = rng.choice([1e-6, 1e-3])
+        rmax = rmin * rng.choice([1.5, 10.0, 1e4]) if rmin > 0 else rng.choice([1e-3, 2.0, 1e4])
+        return [rmin, rmax, rng.choice([1e-3, 0.5, 1.0, 30.0, 1e3])], None
+    if cls == "HyperbolicRTransform":
+        return [rng.choice([1e-3, 1.0, 1e3]), rng.choice([1e-6, 1e-3, 0.05])], None
+    if cls in ("KnowlesRTransform", "HandyRTransform"):
+        return [rmin, R, e], trim
+    if cls == "HandyModRTransform":
+        return [rmin, rmin + 2.0 ** e - 1 + rng.choice([1e-3, 0.5, 30.0, 1e6]), e], trim
+    raise KeyError(cls)
+
+
+def _near_end_points(cls, ps):
+    if cls in FINITE_DOMAIN:
+        return [1 - 1e-4, 1 - 1e-7, 1 - 1e-12, float(np.nextafter(1.0, 0.0)), -1 + 1e-4, -1 + 1e-7, -1 + 1e-12,
+                float(np.nextafter(-1.0, 0.0))]
+    if cls == "HyperbolicRTransform":
+        return [(1 - 1e-4) / ps[1], (1 - 1e-7) / ps[1], (1 - 1e-12) / ps[1], 1e-12 / ps[1]]
+    if cls in B_SCALED:
+        return [1e-12 * ps[2], 1e-300, 5.0 * ps[2], float(np.nextafter(ps[2], 0.0))]
+    return [1e-300, 1e-12, 1e12, 1e300]
+
+
+def _script_wide(S, cls, rng):
+    """audit class 4: extreme parameters, points next to both ends of the domain, huge images on the codomain side"""
+    ps, trim = _gen_params_wide(cls, rng)
+    o = _obj("T0", cls, ps, trim, wrapped=rng.random() < 0.25, style=rng.choice(["kwtrim", "default"]))
+    inner = interior_points(cls, ps, rng, 2)
+    near = rng.sample(_near_end_points(cls, ps), 3)
+    xs = inner + near
+    with np.errstate(all="ignore"), warnings.catch_warnings():
+        warnings.simplefilter("ignore")
+        rs = _vals(construct(cls, ps, trim).transform(np.array(xs)))
+    # codomain-side arguments: finite images only; +-1e16 stands for a trimmed infinity (the image of an end point reached by
+    # rounding, e.g. (nextafter(1, 0) + 1) / 2 == 1.0), where the last bit of pow decides between inf and a huge number
+    rs = [r for r in rs if math.isfinite(r) and abs(r) != 1e16]
+    steps = []
+    for meth in METHODS:
+        arg = xs if (meth in FWD) != o["wrapped"] else rs
+        if arg:
+            steps.append(_step(o, meth, [f"a = np.array({_flist(arg)})"], "a", arg, "float64", shape=(len(arg),), argvar="a",
+                               sub=f"{cls}:{'trim' if o['trim'] else 'notrim'}"))
+    S.run([o], steps)
+
+
+def _other_params(cls, ps, rng):
+    """parameters sharing the leading entries with `ps` and differing in the last one"""
+    q = list(ps)
+    if cls in B_SCALED:
+        q[2] = float(ps[2]) * rng.choice([0.5, 2.0, 3.0])
+    elif cls in ("KnowlesRTransform", "HandyRTransform"):
+        q[2] = rng.choice([t for t in (1, 2, 3, 0.5, 2.5, 4.5) if t != ps[2]])
+    elif cls == "HandyModRTransform":
+        q[2] = rng.choice([t for t in (0.5, 0.7, 1, 1.5, 2, 3) if t < ps[2]] or [ps[2]])
+    elif cls in ("BeckeRTransform", "MultiExpRTransform"):
+        q[1] = float(ps[1]) * 2
+    elif cls == "LinearFiniteRTransform":
+        q[1] = float(ps[1]) + 1.0
+    elif cls == "HyperbolicRTransform":
+        q[1] = float(ps[1]) / 2
+    return q
+
+
+def _script_state(S, cls, rng, m1, b_none=False, wrapped=False, points=interior_points):
+    """audit classes 1, 3, 5 (state, object identity, order): several objects with overlapping parameters, the same entry
+    point called repeatedly with overlapping arguments in different orders, in-place edits, temporaries, rebuilt objects;
+    b-scaled maps also with b inferred from the first array (later arrays must not change it)"""
+    ps, trim = gen_params(cls, rng)
+    qs = _other_params(cls, ps, rng)
+    trim1 = trim if qs != list(ps) else (not trim if cls in HAS_TRIM else trim)
+    o0 = _obj("T0", cls, ps, trim, b_none=b_none, wrapped=wrapped, style=rng.choice(["kwtrim", "kw"]))
+    o1 = _obj("T1", cls, qs, trim1, b_none=b_none, wrapped=wrapped)
+    o2 = _obj("T2", cls, ps, trim, b_none=b_none, wrapped=wrapped)
+    o3 = _obj("T3", cls, qs, trim1, b_none=b_none, wrapped=wrapped)
+    fwd_side = (m1 in FWD) != wrapped
+    n = rng.choice([1, 2, 3])
+    if b_none:
+        def draw(k):
+            if fwd_side:
+                return [rng.uniform(0.05, 15.0) for _ in range(k)]
+            return [rng.uniform(ps[0] + 0.01 * (ps[1] - ps[0]), ps[1] * 1.5) for _ in range(k)]
+        A, C, D = draw(n), draw(n), draw(n + 1)
+    else:
+        XA, XC, XD = (points(cls, ps, rng, k) for k in (n, n, n + 1))
+        if n >= 2 and rng.random() < 0.5:
+            XC[-1] = XC[0]          # repeated value
+        if fwd_side:
+            A, C, D = XA, XC, XD
+        else:
+            with np.errstate(all="ignore"), warnings.catch_warnings():
+                warnings.simplefilter("ignore")
+                T = construct(cls, ps, trim)
+                A, C, D = (_vals(T.transform(np.array(X))) for X in (XA, XC, XD))
+            if not all(math.isfinite(t) for t in A + C + D):
+                return
+    m2 = rng.choice([m for m in METHODS if m != m1 and (m in FWD) == (m1 in FWD)])
+    bs = {}
+
+    def mk(o, meth, pre, arg, xs, kind, argvar=None):
+        psx = list(o["ps"])
+        if b_none:
+            # the first array that reaches set_maximum_parameter_b sets b (LinearInfiniteRTransform.deriv2/deriv3 return
+            # zeros without looking at b)
+            if o["name"] not in bs and not (cls == "LinearInfiniteRTransform" and not wrapped and meth in ("deriv2", "deriv3")):
+                bs[o["name"]] = float(max(xs))
+            psx[2] = bs.get(o["name"], 1.0)
+        return _step(o, meth, pre, arg, xs, kind, shape=None, argvar=argvar, ps=psx)
+    first = rng.choice(["transform", "deriv"] if fwd_side != wrapped else ["inverse", "deriv_inverse"]) if b_none else m1
+    Cr = C[::-1]
+    steps = [
+        mk(o0, first, [f"a = np.array({_flist(A)})", f"c = np.array({_flist(C)})", f"d = np.array({_flist(D)})"], "a", A, "first-call", "a"),
+        mk(o0, m1, [], "c", C, "same-size-other-values", "c"),
+        mk(o1, m1, [], "c", C, "other-object-same-leading-parameters", "c"),
+        mk(o0, m2, [], "a", A, "other-method-same-array", "a"),
+        mk(o1, m1, [], "a", A, "other-object-same-leading-parameters", "a"),
+        mk(o0, m1, [], "a", A, "repeat", "a"),
+        mk(o0, m1, ["a[:] = c[::-1]"], "a", Cr, "same-array-object-edited-in-place", "a"),
+        mk(o0, m1, [], f"np.array({_flist(A)})", A, "temporary"),
+        mk(o0, m1, [], f"np.array({_flist(C)})", C, "temporary-same-size"),
+        mk(o2, m1, _ctor(o2), "c", C, "rebuilt-object", "c"),
+        mk(o2, m1, [], f"np.array({_flist(A)})", A, "rebuilt-object"),
+        mk(o0, m1, [], "d", D, "other-size", "d"),
+        mk(o1, m1, [], "d", D, "other-size", "d"),
+        mk(o0, m1, [], repr(float(A[0])), A[:1], "scalar"),
+        mk(o0, m1, [], repr(float(C[0])), C[:1], "scalar"),
+        mk(o1, m1, [], repr(float(A[0])), A[:1], "scalar"),
+        mk(o3, m1, _ctor(o3), "d", D, "rebuilt-object", "d"),
+        mk(o3, m2, [], "c", C, "rebuilt-object", "c"),
+        mk(o0, m1, [], "a", Cr, "repeat", "a"),
+    ]
+    S.run([o0, o1], steps)
+
+
+def _corr_round2(ctx, mod):
+    rng = ctx.rng
+    S = _Scripts(ctx, mod, "kinds")
+    for cls in CLASSES:
+        for rep in range(ctx.n(3, 24)):
+            _script_kinds(S, cls, rng, rep)
+    S.judge_model()
+    S = _Scripts(ctx, mod, "wide")
+    for cls in CLASSES:
+        for _ in range(ctx.n(16, 300)):
+            _script_wide(S, cls, rng)
+    S.judge_model()
+    S = _Scripts(ctx, mod, "state")
+    for cls in CLASSES:
+        for rep in range(ctx.n(1, 12)):
+            for m1 in METHODS:
+                _script_state(S, cls, rng, m1, wrapped=rng.random() < 0.2)
+                if cls in B_SCALED:
+                    _script_state(S, cls, rng, m1, b_none=True, wrapped=rng.random() < 0.2)
+    S.judge_model()
+
+
+# -- oracle side ---------------------------------------------------------------------------------------------------------
+def _oracle_round2(ctx, mod, budget):
+    """argument kinds, parameter kinds and call sequences, judged against the 40-digit reference"""
+    rng = ctx.rng
+    refs = {}
+    S = _Scripts(ctx, mod, "kinds")
+    for cls in CLASSES:
+        for rep in range(2 if budget == "small" else 6):
+            _script_kinds(S, cls, rng, rep)
+    S.judge_reference(refs)
+    S = _Scripts(ctx, mod, "state")
+    for cls in CLASSES:
+        for m1 in (rng.sample(METHODS, 3) if budget == "small" else METHODS):
+            _script_state(S, cls, rng, m1, wrapped=rng.random() < 0.2, points=_benign_points)
+        if cls in B_SCALED:
+            for m1 in (rng.sample(METHODS, 3) if budget == "small" else METHODS):
+                _script_state(S, cls, rng, m1, b_none=True)
+    S.judge_reference(refs)
+    # fixed probe: the interior point x = 0 as an integer array with an integer exponent (information, see _known_quirk)
+    S = _Scripts(ctx, mod, "probe")
+    for cls, ps in (("KnowlesRTransform", [0, 1, 1]), ("HandyRTransform", [0, 1, 1]), ("HandyModRTransform", [0, 5, 1]),
+                    ("HandyRTransform", [0, 1, 2])):
+        o = _obj("T0", cls, ps, True, pkinds=["int"] * 3)
+        S.run([o], [_step(o, m, ["a = np.array([0])"], "a", [0.0], "int64", shape=(1,), argvar="a") for m in ("deriv", "deriv2", "deriv3")])
+    S.judge_reference(refs)
+    # fixed probe: NumPy-integer parameters (fixed-width integer arithmetic in the parameter-only subexpressions)
+    with np.errstate(all="ignore"), warnings.catch_warnings():
+        warnings.simplefilter("ignore")
+        ovf = []
+        X = "np.array([-0.25, 0.3])"
+        for src_i, src_f in ((f"rt.HandyModRTransform(np.int32(2), np.int32(297), 8).deriv3({X})", f"rt.HandyModRTransform(2.0, 297.0, 8.0).deriv3({X})"),
+                             (f"rt.HandyModRTransform(0.0, 2.0**28 + 10, np.int64(28)).deriv3({X})", f"rt.HandyModRTransform(0.0, 2.0**28 + 10, 28.0).deriv3({X})"),
+                             (f"rt.KnowlesRTransform(0.0, 1.0, np.int32(15)).deriv3({X})", f"rt.KnowlesRTransform(0.0, 1.0, 15.0).deriv3({X})"),
+                             (f"rt.KnowlesRTransform(0.0, 1.0, np.int64(31)).deriv3({X})", f"rt.KnowlesRTransform(0.0, 1.0, 31.0).deriv3({X})"),
+                             ("rt.HandyModRTransform(2, 297, 8).deriv2(np.array([0], dtype=np.int32))", "rt.HandyModRTransform(2, 297, 8).deriv2(np.array([0.0]))")):
+            try:
+                vi, vf = (_vals(eval(t, {"np": np, "rt": mod})) for t in (src_i, src_f))
+                if not all(close(a, b, rtol=1e-9) for a, b in zip(vi, vf)):
+                    ovf.append(f"{src_i} = {vi} (in floating point: {vf})")
+            except Exception:  # noqa: BLE001
+                pass
+        if ovf:
+            ctx.__dict__.setdefault("_c03_notes", {})["overflow"] = ovf
+    _emit_notes(ctx)
+
+
+def _emit_notes(ctx):
+    """behaviour of the unchanged library at the edge of the quantifier 'scalar or array', reported once per run"""
+    n = ctx.__dict__.get("_c03_notes", {})
+    if ctx.__dict__.get("_c03_notes_emitted"):
+        return
+    ctx._c03_notes_emitted = True
+    if "int-power" in n:
+        ks = sorted(n["int-power"])
+        ctx.info("information (argument kinds): an integer-typed argument (int array, bool array, np.int64 scalar; a Python int when the "
+                 "exponent is a NumPy integer) at the interior point x = 0 with an integer-typed exponent k, m in {1, 2} raises ValueError "
+                 f"'Integers to negative integer powers are not allowed' in {', '.join(ks)}; e.g. {n['int-power'][ks[0]]}; "
+                 "the same point as float64 is accepted")
+    if "shape" in n:
+        ks = sorted(n["shape"])
+        ctx.info("information (argument kinds): values agree element-wise but the result is a flat array of x.size elements (np.ones(x.size)), "
+                 f"not of the shape of the argument, in {', '.join(ks)}; e.g. {ks[0]}: {n['shape'][ks[0]]}")
+    if "int-arith" in n:
+        ks = sorted(n["int-arith"])
+        ctx.info("information (argument kinds): an integer-typed argument together with integer-typed parameters is evaluated in fixed-width "
+                 f"integer arithmetic and overflows in {', '.join(ks)}; e.g. {n['int-arith'][ks[0]]}")
+    if "overflow" in n:
+        ctx.info("information (parameter kinds): NumPy fixed-width integers (np.int32 / np.int64 parameters, or an int32 argument array with "
+                 "integer parameters) overflow silently in the derivative formulas (4**k, two_m**2 * (m-2)*(m-1)*(1 - two_m + size_r)**2 "
+                 "... are evaluated in int32 / int64): " + "; ".join(n["overflow"]) + "; floats with the same values are evaluated correctly")
+    if "alias" in n:
+        ctx.info(f"information (object identity): {', '.join(sorted(n['alias']))} return the argument object itself (no copy), so an in-place "
+                 "edit of the argument after the call also changes the earlier result")
+    ctx.info("information (precision): float32 arguments, and float32 parameters combined with a Python float argument, are evaluated in single "
+             "precision (NumPy >= 2 promotion rules; compared at 2e-3 at well-conditioned points, the x-independent derivative methods "
+             "of the linear maps at 1e-10); lists are rejected with TypeError/AttributeError (the docstrings ask for ndarray or float)")
+
+
+def oracle_at(ctx: Ctx, failure):
+    """Turn a disagreement of the correspondence into an evaluation of the property itself at that input: re-run the calls
+    that led to the disagreeing answer and compare it with what the property prescribes there (derivative methods: the
+    numerical derivative of the 40-digit run of transform / inverse; transform and inverse: the point certified by the
+    opposite map)."""
+    w = failure.witness
+    if not (isinstance(w, dict) and {"class", "params", "method", "x"} <= set(w)) or w["class"] not in CLASSES:
+        return
+    cls, meth, x = w["class"], w["method"], w["x"]
+    if meth not in METHODS or not isinstance(x, (int, float)) or not math.isfinite(x):
+        return
+    trim = w.get("trim") if cls in HAS_TRIM else None
+    wrapped = bool(w.get("wrapped"))
+    ps = [float(p) for p in w["params"]]
+    if w.get("script") is not None:
+        script, call, index = list(w["script"]), w["call"], int(w.get("index", 0))
+    else:
+        args = [repr(p) for p in w["params"]] + ([f"trim_inf={bool(trim)}"] if trim is not None else [])
+        script = [f"T0 = rt.{cls}({', '.join(args)})"] + (["T0 = rt.InverseRTransform(T0)"] if wrapped else [])
+        call, index = f"T0.{meth}(np.array([{float(x)!r}]))", 0
+    if cls in B_SCALED and len(ps) < 3:
+        return
+    eff = WRAP_OF[meth] if wrapped else meth
+    key = f"rtransform.{cls}.{eff}"
+    fwd_arg = eff in ("transform", "deriv", "deriv2", "deriv3")
+    if fwd_arg and not ((-1 < x < 1) if cls in FINITE_DOMAIN else x > 0):
+        return      # an end point: the property speaks about interior points (the end points have their own check)
+    try:
+        got = _run_script(rt(), script, call, index)
+    except Exception as e:  # noqa: BLE001
+        if _expected_tag(dict(o=dict(cls=cls), ps=ps, xs=[0.0] * int(w.get("size", 1)))) == "ok":
+            ctx.fail("oracle", f"rtransform.{cls}.argument", f"{cls}{tuple(ps)}: {call} raises {type(e).__name__}: {str(e)[:100]} on a valid argument",
+                     witness={"class": cls, "params": ps, "script": script, "call": call},
+                     snippet=SNIPPET_ACCEPT.format(script="\n".join(script), call=call))
+        return
+    refs = {}
+    ref = _reference(refs, cls, ps, trim, eff, float(x))
+    if ref is None and eff in ("transform", "inverse"):
+        # the round trip itself fails in 40-digit arithmetic at this input
+        try:
+            with np.errstate(all="ignore"):
+                T = _hp_object(refs, cls, ps, trim)
+                v = hp_call(T, eff, mpmath.mpf(x))
+                back = hp_call(T, WRAP_OF[eff], v)
+            if mpmath.isfinite(v) and not abs(back - x) <= mpmath.mpf(10) ** -25 * max(1, abs(x)):
+                ctx.fail("oracle", key, f"{cls}{tuple(ps)} trim={trim}: {WRAP_OF[eff]}({eff}({x!r})) = {mpmath.nstr(back, 20)} in 40-digit arithmetic "
+                         "(input taken from a disagreement of the correspondence)",
+                         witness={"class": cls, "params": ps, "trim": trim, "method": meth, "x": x, "script": script, "call": call},
+                         snippet=_snippet_at(cls, ps, trim, eff, float(x), script, call, index, 1e-9, 0.0))
+                return
+        except Exception:  # noqa: BLE001
+            pass
+    if ref is None:
+        ctx.info(f"oracle_at: no reference for {cls}{tuple(ps)}.{eff} at {x!r} (end point, pole or uncertified round trip)")
+        return
+    xdom = eff == "inverse"
+    rtol = float(w.get("rtol", 1e-10))
+    if w.get("f32") and rtol > 1e-9:
+        ce = _ref_cond(refs, cls, ps, trim, eff, float(x), ref, 22)
+        tol = 2e-3 + 50 * float(ce if ce is not None else 1.0)
+    else:
+        ce = _ref_cond(refs, cls, ps, trim, eff, float(x), ref, 52)
+        if ce is None or 1000 * ce > 0.1:
+            ctx.info(f"oracle_at: {cls}{tuple(ps)}.{eff} at {x!r} is too ill-conditioned for a double-precision verdict")
+            return
+        tol = max(10 * rtol, 1000 * float(ce))
+    atol = (tol * 0.1 if tol > 1e-8 else 1e-11) if xdom else 0.0
+    if not abs(mpmath.mpf(got) - ref) <= tol * max(abs(ref), mpmath.mpf(1e-12)) + atol:
+        if len([f for f in ctx.failures if f.kind == "oracle" and f.key == key]) >= 3:
+            return
+        script, snippet, remark = _script_and_snippet(
+            ctx, rt(), w.get("reducible"), lambda g: not abs(mpmath.mpf(g) - ref) <= tol * max(abs(ref), mpmath.mpf(1e-12)) + atol,
+            cls, ps, trim, eff, float(x), script, call, index, tol, atol)
+        if eff in ORDER_OF and not wrapped and w.get("script") is None:
+            # the plain call reproduces: the snippet of the main oracle applies verbatim when its tolerance is exceeded too
+            if not abs(mpmath.mpf(got) - ref) <= 1e-7 * max(abs(ref), mpmath.mpf(1e-12)):
+                snippet = SNIPPET.format(cls=cls, ps=list(w["params"]), trim=trim, meth=eff, x=float(x), order=ORDER_OF[eff],
+                                         base="inverse" if eff.endswith("_inverse") else "transform")
+        ctx.fail("oracle", key, f"{'InverseRTransform of ' if wrapped else ''}{cls}{tuple(ps)} trim={trim}: {call} [element {index}, point {x!r}] = {got!r}, "
+                 f"but {_what_ref(eff)} there is {mpmath.nstr(ref, 15)} (input taken from a disagreement of the correspondence){remark}",
+                 witness={"class": cls, "params": ps, "trim": trim, "method": meth, "effective_method": eff, "x": x, "wrapped": wrapped,
+                          "got": got, "want": mpmath.nstr(ref, 20), "script": script, "call": call, "index": index, "tol": tol},
+                 snippet=snippet)
